@@ -33,12 +33,16 @@ func c03Specs(tier string, seed int) []c03Spec {
 	batches := [][]string{{"A", "B", "C"}, {"A", "A2", "B"}, {"C", "A", "B"}, {"B", "C", "A2"}, {"A", "A", "C"}, {"C", "B", "A"}}
 	bound := 1
 	if tier == "thorough" {
-		bound = 2
+		bound = 3
 		batches = append(batches, []string{"A2", "A", "C"}, []string{"B", "B", "A"}, []string{"C", "C", "A"}, []string{"B", "A", "A2"}, []string{"A", "C", "B"}, []string{"A2", "B", "C"})
 	}
-	for _, b := range batches {
+	for i, b := range batches {
 		for _, conc := range []int{2, 3} {
-			out = append(out, c03Spec{Kind: "e3", Batch: b, Conc: conc, Bound: bound, Days: 3})
+			bd := bound
+			if tier == "quick" && conc == 2 && (i+seed)%6 == 0 {
+				bd = 2 // quick: one of the batches (rotating with the seed) one bound deeper at concurrency 2
+			}
+			out = append(out, c03Spec{Kind: "e3", Batch: b, Conc: conc, Bound: bd, Days: 3})
 		}
 	}
 	// 2-line batches: unbounded number of preemptions
@@ -48,7 +52,8 @@ func c03Specs(tier string, seed int) []c03Spec {
 	// 4 lines, 2 and 3 workers, bound 1 (0 in quick)
 	b4 := 0
 	if tier == "thorough" {
-		b4 = 1
+		b4 = 2
+		out = append(out, c03Spec{Kind: "e3", Batch: []string{"A", "B", "C", "A2", "B"}, Conc: 4, Bound: 1, Days: 2}, c03Spec{Kind: "e3", Batch: []string{"A", "B", "C"}, Conc: 2, Bound: -1, Days: 1})
 	}
 	out = append(out, c03Spec{Kind: "e3", Batch: []string{"A", "B", "C", "A2"}, Conc: 2, Bound: b4, Days: 2}, c03Spec{Kind: "e3", Batch: []string{"C", "A2", "B", "A"}, Conc: 3, Bound: b4, Days: 2})
 	// sequential orders in one session: every sequence of 2 and 3 lines over {A, B, C, A2}
@@ -76,9 +81,9 @@ func init() {
 			"the rewriter (engine/rewrite) and the scheduler (engine/vsched) are trusted; constructs they do not model are refused with a harness error"},
 		Bound: func(t string) string {
 			if t == "quick" {
-				return "6 three-line batches x concurrency 2,3 at preemption bound 1 (3 simulated days); 5 two-line batches unbounded; 2 four-line batches at bound 0; all 80 line sequences of length 2-3 in one session; race pass with 4 and 8 concurrent runs"
+				return "6 three-line batches x concurrency 2,3 at preemption bound 1 (one of them at bound 2; 3 simulated days); 5 two-line batches unbounded; 2 four-line batches at bound 0; all 80 line sequences of length 2-3 in one session; race pass with 4 and 8 concurrent runs"
 			}
-			return "12 three-line batches x concurrency 2,3 at preemption bound 2; 5 two-line batches unbounded; 2 four-line batches at bound 1; all 80 line sequences; race pass"
+			return "12 three-line batches x concurrency 2,3 at preemption bound 3; 5 two-line batches unbounded; one three-line batch unbounded (1 simulated day); 2 four-line batches at bound 2; a five-line batch with 4 workers at bound 1; all 80 line sequences; race pass"
 		},
 		Budget: func(t string) time.Duration {
 			if t == "quick" {
